@@ -91,3 +91,22 @@ Theorem floor_defaults b h p : get_num "X" (b_attrs b) = None -> get_num "Y" (b_
   get_num "Z" (b_attrs b) = None -> get_num "MULTIPLIER" (b_attrs b) = None ->
   floor_of b = Ok (mkTFl (b_name b) (NConst 0%Q) h (NConst 1%Q) p).
 Proof. intros Hx Hy Hh Hp Hz Hm. unfold floor_of. rewrite Hx, Hy, Hh, Hp, Hz, Hm. reflexivity. Qed.
+
+(* walls: a written TILT wins; without it the tilt follows the block kind and the LOCATION *)
+From CTE Require Import Model.BdlTypedEnv.
+Theorem wall_written_tilt_wins b w tk : wall_of b = Ok w -> get_num "TILT" (b_attrs b) = Some tk -> twl_tilt w = NTok tk.
+Proof.
+  unfold wall_of. intros H Ht.
+  destruct (b_parent b); [|discriminate]. destruct (get_text "CONSTRUCTION" (b_attrs b)); [|discriminate].
+  destruct (match get_text "LOCATION" (b_attrs b) with
+            | Some l => if (str_eqb l (s2l "TOP") || str_eqb l (s2l "BOTTOM"))%bool then Ok (Some l)
+                        else if prefixb space_prefix l then Ok (Some (skipn 6 l)) else Err 6%N
+            | None => Ok None end) as [loc|]; [|discriminate].
+  destruct (if N.eqb (b_type b) CTEGen.BdlTypes.BT_InteriorWall
+            then match get_text "INT-WALL-TYPE" (b_attrs b) with
+                 | Some k => if str_eqb k (s2l "STANDARD") then Ok TB_INTERIOR else if str_eqb k (s2l "ADIABATIC") then Ok TB_ADIABATIC else Err 6%N
+                 | None => Err 5%N end
+            else if N.eqb (b_type b) CTEGen.BdlTypes.BT_UndergroundWall then Ok TB_GROUND
+            else if (N.eqb (b_type b) CTEGen.BdlTypes.BT_ExteriorWall || N.eqb (b_type b) CTEGen.BdlTypes.BT_Roof)%bool then Ok TB_EXTERIOR else Err 6%N) as [bd|]; [|discriminate].
+  rewrite Ht in H. injection H as <-. reflexivity.
+Qed.
